@@ -10,7 +10,7 @@ import mutate, engine, extract
 def runner(fd):
     import check as checkmod
     known = {k for (_p, k) in checkmod.load_known()}
-    F, roles, R = engine.run_all(fd)
+    F, roles, R, _vinfo = engine.run_best(fd)
     R.obs = [o for o in R.obs if o['ok'] or checkmod.vkey(o) not in known]  # recorded open findings are not self-test signals
     return [dict(rule=o['rule'], key=o['key'], status=o['status'], props=list(o['props']), msg=o['msg'][:400]) for o in R.obs if not o['ok']]
 
@@ -60,7 +60,7 @@ if __name__ == '__main__':
     import catalogue
     ids = [a for a in sys.argv[1:] if not a.startswith('-')]
     ms = [mu for mu in catalogue.M if not ids or mu['id'] in ids or any(mu['id'].startswith(i) for i in ids)]
-    res = run(ms, jobs=int(os.environ.get('JOBS', '8')))
+    res = run(ms, repo=os.environ.get('PIE_REPO', '/repo'), jobs=int(os.environ.get('JOBS', '8')))
     for mu in ms:
         r = res[mu['id']]
         v = verdict(mu, r)
